@@ -74,6 +74,24 @@
      - get_disjoint_unchecked_mut is an `unsafe fn` whose contract (distinct
        keys) is not assumed by C17_disjoint_unchecked_safe: the model's version
        is safe without it.
+   AUDIT ADDENDUM (end of this file, lemmas in Proofs/MoreOwned.v) - NOW COVERED:
+     - the script family of Exec.v is a PRNG family; history-level safety for an
+       ARBITRARY environment (any answer sequence) on the Dict / Dict2 / SetDict
+       interpreters                        C17_mrun_any_env_safe, C17_mrun_any_env_length,
+                                           C17_mrun2_any_env_safe, C17_srun_any_env_safe
+     - "every element is still destroyed exactly once" along a history, arbitrary E
+                                           C17_run_NoDup, C17_run_no_double_drop,
+                                           C17_run2_NoDup, C17_srun_NoDup
+     - "len() ... matches what iteration yields" (was: only WF)
+                                           C17_len_matches_iter, C17_run_final_WFx_safe,
+                                           C17_run_len_matches_iter_m, C17_run_len_matches_iter_s
+     - iter_mut / values_mut references pairwise distinct
+                                           C17_iter_mut_distinct
+     - identity hypothesis of C17_conserves_retain discharged for the interpreter
+                                           C17_pred_m_keeps_id, C17_conserves_retain_pred_m
+     - get_disjoint_mut under a lying eqQQ / eqQK, computed
+                                           C17_example_disjoint_lying_true,
+                                           C17_example_disjoint_lying_alternating
    ========================================================================== *)
 Require Import Model.Base Model.Slots Model.MapOps Model.EntryOps Model.SetOps Model.Fmt Model.Exec.
 Require Import Proofs.Hoare Proofs.Inv Proofs.Safety Proofs.Safety2 Proofs.Owned Proofs.Owned2
@@ -279,3 +297,313 @@ Proof. vm_compute. reflexivity. Qed.
 Example C17_example_unit_no_id :
   idV (env_set {| sc_adv := true; sc_seed := 7; sc_fk := 0; sc_fa := 0 |}) tt = [].
 Proof. reflexivity. Qed.
+
+
+(* ========================================================================== *)
+(* ADDENDUM (audit closure).  New lemmas: Proofs/MoreOwned.v.
+   Vocabulary of the history theorems (mstep / mfinal of Proofs/Dict.v, mstep2 /
+   mfinal2 of Dict2.v, sstep / smfinal of SetDict.v; op_ins, op_outs, op_ok,
+   mouts): see the addendum of Props/C02.v.  These interpreters take an
+   ARBITRARY environment E : env K V Q T - not only the PRNG-driven scripts of
+   Model/Exec.v: every key comparison may answer anything, differently each
+   time, or panic.                                                            *)
+(* ========================================================================== *)
+Require Import Proofs.Lawful Proofs.IterSpec Proofs.Dict Proofs.Dict2 Proofs.SetDict Proofs.ExecUniq Proofs.FmtSerde
+               Proofs.MoreOwned.
+
+(* -------------------------------------------------------------------------- *)
+(* "remain memory-safe" for ALL operation sequences under ARBITRARY outcomes of
+   every key comparison (the history-level version of the function-level
+   `forall E` theorems): from a well-formed container, any history of the 13
+   dictionary operations (+ drain, iteration, entry, extend; the Set methods),
+   any environment, any closure: a final world exists (UB never happened), it is
+   well-formed (len <= capacity, slots [0,len) live), capacity unchanged; every
+   operation produced a result or a panic. *)
+Theorem C17_mrun_any_env_safe :
+  forall (K V Q T : Type) (E : env K V Q T) (debug : bool) (ops : list dop) (w : world K V T),
+  WF (self w) ->
+  exists wf : world K V T,
+    mfinal E debug ops w = Some wf /\ WF (self wf) /\ cap (self wf) = cap (self w).
+Proof. exact (@mrun_any_env_safe). Qed.
+Print Assumptions C17_mrun_any_env_safe.
+
+Theorem C17_mrun_any_env_length :
+  forall (K V Q T : Type) (E : env K V Q T) (debug : bool) (ops : list dop) (w : world K V T),
+  WF (self w) -> length (mrun E debug ops w) = length ops.
+Proof. exact (@mrun_any_env_length). Qed.
+Print Assumptions C17_mrun_any_env_length.
+
+Theorem C17_mrun2_any_env_safe :
+  forall (K V Q T : Type) (E : env K V Q T) (debug : bool) (ops : list dop2) (w : world K V T),
+  WF (self w) ->
+  exists wf : world K V T,
+    mfinal2 E debug ops w = Some wf /\ WF (self wf) /\ cap (self wf) = cap (self w).
+Proof. exact (@mrun2_any_env_safe). Qed.
+Print Assumptions C17_mrun2_any_env_safe.
+
+Theorem C17_srun_any_env_safe :
+  forall (K Q T : Type) (E : env K unit Q T) (debug : bool) (ops : list sop)
+    (w : world K unit T),
+  WF (self w) ->
+  exists wf : world K unit T,
+    smfinal E debug ops w = Some wf /\ WF (self wf) /\ cap (self wf) = cap (self w).
+Proof. exact (@srun_any_env_safe). Qed.
+Print Assumptions C17_srun_any_env_safe.
+
+(* -------------------------------------------------------------------------- *)
+(* "every element is still destroyed exactly once" even under a misbehaving ==,
+   ALONG A HISTORY: hypothesis = the identities stored at the start, those of all
+   arguments of the history, uninvolved ones (extra) and those already destroyed
+   are pairwise distinct; conclusion = after the history no identity occurs twice
+   among stored ++ with the caller ++ extra ++ destroyed (nothing destroyed
+   twice, nothing destroyed still stored).  No Lawful hypothesis.  (Leaks on a
+   panic are tolerated: this is "at most once"; "exactly once" for lawful
+   environments is C02_run_exact.) *)
+Theorem C17_run_NoDup :
+  forall (K V Q T : Type) (E : env K V Q T) (debug : bool) (ops : list dop)
+    (w wf : world K V T) (extra : list N),
+  WF (self w) ->
+  Forall (op_ok E) ops ->
+  NoDup (owned E (self w) ++ flat_map (op_ins E) ops ++ extra ++ dropped (log w)) ->
+  mfinal E debug ops w = Some wf ->
+  NoDup (owned E (self wf) ++ mouts E debug ops w ++ extra ++ dropped (log wf)).
+Proof. exact (@run_NoDup). Qed.
+Print Assumptions C17_run_NoDup.
+
+Theorem C17_run_no_double_drop :
+  forall (K V Q T : Type) (E : env K V Q T) (debug : bool) (ops : list dop)
+    (w wf : world K V T),
+  WF (self w) ->
+  Forall (op_ok E) ops ->
+  NoDup (owned E (self w) ++ flat_map (op_ins E) ops ++ dropped (log w)) ->
+  mfinal E debug ops w = Some wf ->
+  NoDup (dropped (log wf)) /\
+  NoDup (owned E (self wf)) /\
+  (forall x : N,
+   In x (owned E (self wf)) -> ~ In x (dropped (log wf)) /\ ~ In x (mouts E debug ops w)) /\
+  (forall x : N, In x (mouts E debug ops w) -> ~ In x (dropped (log wf))).
+Proof. exact (@run_no_double_drop). Qed.
+Print Assumptions C17_run_no_double_drop.
+
+Theorem C17_run2_NoDup :
+  forall (K V Q T : Type) (E : env K V Q T) (debug : bool) (ops : list dop2)
+    (w wf : world K V T) (extra : list N),
+  WF (self w) ->
+  Forall (op2_ok E) ops ->
+  NoDup (owned E (self w) ++ flat_map (op2_ins E) ops ++ extra ++ dropped (log w)) ->
+  mfinal2 E debug ops w = Some wf ->
+  NoDup (owned E (self wf) ++ mouts2 E debug ops w ++ extra ++ dropped (log wf)).
+Proof. exact (@run2_NoDup). Qed.
+Print Assumptions C17_run2_NoDup.
+
+Theorem C17_srun_NoDup :
+  forall (K Q T : Type) (E : env K unit Q T) (debug : bool),
+  idV E tt = [] ->
+  forall (ops : list sop) (w wf : world K unit T) (extra : list N),
+  WF (self w) ->
+  NoDup (owned E (self w) ++ flat_map (sop_ins E) ops ++ extra ++ dropped (log w)) ->
+  smfinal E debug ops w = Some wf ->
+  NoDup (owned E (self wf) ++ souts E debug ops w ++ extra ++ dropped (log wf)).
+Proof. exact (@srun_NoDup). Qed.
+Print Assumptions C17_srun_NoDup.
+
+(* -------------------------------------------------------------------------- *)
+(* "len() never exceeds capacity() and matches what iteration yields": for every
+   well-formed container a full iteration session (iter(), then len calls of
+   next(); IterSpec.iter_run) yields exactly the len slots 0 .. len-1, each
+   once, and changes nothing - no environment is involved: iterators make no
+   user callback.  At history level: after ANY history of the interpreter under
+   ANY script (adversarial ==, injected panics, both build profiles), in each of
+   the four registers. *)
+Theorem C17_len_matches_iter :
+  forall (K V T : Type) (w : world K V T),
+  WF (self w) ->
+  wp (c <- iter;; IterSpec.iter_run (len (self w)) c)
+    (fun (res : list nat * cursor) (w' : world K V T) =>
+     w' = w /\ fst res = seq 0 (len (self w)) /\ length (fst res) = len (self w))
+    (fun _ : world K V T => False) w.
+Proof. exact (@len_matches_iter). Qed.
+Print Assumptions C17_len_matches_iter.
+
+Theorem C17_run_final_WFx_safe :
+  forall (debug : bool) (sc : script) (ops : list op) (x : xworld),
+  WFx x -> Forall safe_op ops -> WFx (run_final debug sc ops x).
+Proof. exact (@run_final_WFx_safe). Qed.
+Print Assumptions C17_run_final_WFx_safe.
+
+Theorem C17_run_len_matches_iter_m :
+  forall (debug : bool) (sc : script) (ops : list op) (x : xworld) 
+    (r : N) (cs : cstate) (lg : list event),
+  WFx x ->
+  Forall safe_op ops ->
+  let m := get_m r (run_final debug sc ops x) in
+  let w := {| cb := cs; log := lg; self := m |} in
+  len m <= cap m /\
+  wp (c <- iter;; IterSpec.iter_run (len m) c)
+    (fun (res : list nat * cursor) (w' : mworld) =>
+     w' = w /\ fst res = seq 0 (len m) /\ length (fst res) = len m /\ snd res = (len m, len m))
+    (fun _ : mworld => False) w.
+Proof. exact (@run_len_matches_iter_m). Qed.
+Print Assumptions C17_run_len_matches_iter_m.
+
+Theorem C17_run_len_matches_iter_s :
+  forall (debug : bool) (sc : script) (ops : list op) (x : xworld) 
+    (r : N) (cs : cstate) (lg : list event),
+  WFx x ->
+  Forall safe_op ops ->
+  let m := get_s r (run_final debug sc ops x) in
+  let w := {| cb := cs; log := lg; self := m |} in
+  len m <= cap m /\
+  wp (c <- iter;; IterSpec.iter_run (len m) c)
+    (fun (res : list nat * cursor) (w' : sworld) =>
+     w' = w /\ fst res = seq 0 (len m) /\ length (fst res) = len m /\ snd res = (len m, len m))
+    (fun _ : sworld => False) w.
+Proof. exact (@run_len_matches_iter_s). Qed.
+Print Assumptions C17_run_len_matches_iter_s.
+
+(* "mutable references handed out together never alias" for iter_mut /
+   values_mut: a session of any length yields pairwise distinct, live slots *)
+Theorem C17_iter_mut_distinct :
+  forall (K V T : Type) (n : nat) (w : world K V T),
+  WF (self w) ->
+  wp (c <- iter;; IterSpec.iter_run n c)
+    (fun (res : list nat * cursor) (w' : world K V T) =>
+     w' = w /\
+     NoDup (fst res) /\
+     Forall (fun i : nat => i < len (self w)) (fst res) /\
+     (forall i : nat, In i (fst res) -> live (self w) i)) (fun _ : world K V T => False) w.
+Proof. exact (@iter_mut_distinct). Qed.
+Print Assumptions C17_iter_mut_distinct.
+
+(* -------------------------------------------------------------------------- *)
+(* the identity hypothesis of C17_conserves_retain holds of the interpreter's
+   retain predicates (Exec.pred_m: keep / remove / keep-and-add-100-to-the-
+   payload, possibly panicking), for EVERY script *)
+Theorem C17_pred_m_keeps_id :
+  forall (sc : script) (dflt : N) (tab : list (N * N)) (s : cstate) (k : key) (v : vobj),
+  idV (env_map sc) (snd (fst (pred_m sc dflt tab s k v))) = idV (env_map sc) v.
+Proof. exact (@pred_m_keeps_id). Qed.
+Print Assumptions C17_pred_m_keeps_id.
+
+Theorem C17_conserves_retain_pred_m :
+  forall (debug : bool) (sc : script) (dflt : N) (tab : list (N * N)),
+  conserves (env_map sc) (retain (env_map sc) debug (pred_m sc dflt tab)) []
+    (fun _ : unit => []).
+Proof. exact (@conserves_retain_pred_m). Qed.
+Print Assumptions C17_conserves_retain_pred_m.
+
+(* -------------------------------------------------------------------------- *)
+(* non-vacuity                                                                *)
+(* get_disjoint_mut under a LYING eqQQ / eqQK (environments of MoreOwned.v built
+   over the honest env_map; xi_somes r = the Some-slots of a result):
+   env_liar_true: q == q' and q == stored ALWAYS answer true.  Checked: the
+   overlap assertion fires (panic, nothing changed).  Unchecked, 2 queries: every
+   slot claims query 0 and the index stack overflows (bounds-check panic);
+   3 queries: one &mut only.  Never two references to one slot. *)
+Example C17_example_disjoint_lying_true :
+  get_disjoint_mut env_liar_true [QCls 5; QCls 6] (w_of m3) = Panic (w_of m3) /\
+  get_disjoint_unchecked_mut env_liar_true [QCls 5; QCls 6] (w_of m3) = Panic (w_of m3) /\
+  get_disjoint_unchecked_mut env_liar_true [QCls 5; QCls 6; QCls 7] (w_of m3) =
+  Ok [Some 0; None; None] (w_of m3) /\
+  xi_somes [Some 0; None; None] = [0] /\ NoDup (xi_somes [Some 0; None; None]).
+Proof. exact (@example_disjoint_lying_true). Qed.
+Print Assumptions C17_example_disjoint_lying_true.
+
+(* env_liar_alt: q == q' always answers false (three EQUAL queries pass the
+   assertion), q == stored alternates true/false with the call counter: two
+   stored keys claim the same query, yet the slots handed out are pairwise
+   different, or the call panics *)
+Example C17_example_disjoint_lying_alternating :
+  get_disjoint_mut env_liar_alt [QCls 5; QCls 6] (w_of m3) = Panic xi_w5 /\
+  get_disjoint_mut env_liar_alt [QCls 5; QCls 6; QCls 7] (w_of m3) =
+  Ok [Some 0; Some 1; None] xi_w5 /\
+  get_disjoint_mut env_liar_alt [QCls 9; QCls 9; QCls 9] (w_of m3) =
+  Ok [Some 0; Some 1; None] xi_w5 /\
+  xi_somes [Some 0; Some 1; None] = [0; 1] /\ NoDup (xi_somes [Some 0; Some 1; None]).
+Proof. exact (@example_disjoint_lying_alternating). Qed.
+Print Assumptions C17_example_disjoint_lying_alternating.
+
+(* a history on the full 3-entry map m3 under each of the FOUR kinds of
+   misbehaving == of Exec.adv_answer (selected by seed mod 4).  The hypotheses
+   of C17_run_NoDup hold for every script; the runs never reach UB; the answers
+   are wrong in four different ways, and the ledger balances every time
+   (stored ++ with the caller ++ destroyed are 13 or 14 pairwise distinct ids out
+   of 1..15; the missing one was leaked by a panicking call). *)
+Definition C17_ops1 : list (@dop key vobj query) :=
+  [DInsert (k_ 7 9) (v_ 8 1); DInsert (k_ 10 5) (v_ 11 2); DRemove (QCls 6); DGetMut (QCls 7) (v_ 12 3);
+   DRetain (fun k v => (N.eqb (kcls k) 5, v)); DInsertKV (k_ 13 5) (v_ 14 4); DIndexMut (QCls 99) (v_ 15 0)].
+Definition C17_sc_adv (seed : N) : script := {| sc_adv := true; sc_seed := seed; sc_fk := 0; sc_fa := 0 |}.
+
+Example C17_example_history_hyps :
+  forall sc : script,
+  WF (self (w_of m3)) /\ Forall (op_ok (env_map sc)) C17_ops1 /\
+  NoDup (owned (env_map sc) (self (w_of m3)) ++ flat_map (op_ins (env_map sc)) C17_ops1 ++
+         dropped (log (w_of m3))).
+Proof.
+  intros sc. split; [exact m3_WF|]. split; [repeat constructor|].
+  vm_compute. repeat constructor; cbn [In]; intros H;
+    repeat (destruct H as [H | H]; try discriminate H); exact H.
+Qed.
+
+(* seed mod 4 = 0: == lies now and then (PRNG).  The first insert (class 9,
+   absent, map full) gets a wrong "equal" answer and overwrites another key's
+   value instead of panicking; 15 is leaked by the panicking IndexMut *)
+Example C17_example_history_prng :
+  mrun (env_map (C17_sc_adv 4)) false C17_ops1 (w_of m3) =
+    [RVal (v_ 4 8); RVal (v_ 2 7); RVal (v_ 8 1); RVal (v_ 6 9); RUnit; RPair (k_ 1 5, v_ 11 2); RPanic] /\
+  match mfinal (env_map (C17_sc_adv 4)) false C17_ops1 (w_of m3) with
+  | Some wf => owned (env_map (C17_sc_adv 4)) (self wf) = [13; 14]%N /\
+               mouts (env_map (C17_sc_adv 4)) false C17_ops1 (w_of m3) = [4; 2; 8; 6; 1; 11]%N /\
+               dropped (log wf) = [7; 10; 3; 5; 12]%N
+  | None => False
+  end.
+Proof. vm_compute. repeat split; reflexivity. Qed.
+
+(* seed mod 4 = 1: everything equals everything.  Every lookup hits slot 0: both
+   inserts overwrite its value, remove(class 6) removes it, even Index of the
+   absent class 99 "finds" an element; nothing panics, nothing is leaked *)
+Example C17_example_history_always_equal :
+  mrun (env_map (C17_sc_adv 5)) false C17_ops1 (w_of m3) =
+    [RVal (v_ 2 7); RVal (v_ 8 1); RVal (v_ 11 2); RVal (v_ 6 9); RUnit; RNone; RVal (v_ 14 4)] /\
+  match mfinal (env_map (C17_sc_adv 5)) false C17_ops1 (w_of m3) with
+  | Some wf => owned (env_map (C17_sc_adv 5)) (self wf) = [13; 15]%N /\
+               mouts (env_map (C17_sc_adv 5)) false C17_ops1 (w_of m3) = [2; 8; 11; 6; 14]%N /\
+               dropped (log wf) = [7; 10; 1; 5; 12; 3; 4]%N
+  | None => False
+  end.
+Proof. vm_compute. repeat split; reflexivity. Qed.
+
+(* seed mod 4 = 2: nothing equals anything, not even itself.  Every lookup
+   misses: the inserts into the full map are rejected (their arguments destroyed
+   once), remove / get_mut find nothing, IndexMut panics (15 leaked), and after
+   retain made room a DUPLICATE key of class 5 is stored (ids 1 and 13) *)
+Example C17_example_history_never_equal :
+  mrun (env_map (C17_sc_adv 6)) false C17_ops1 (w_of m3) =
+    [RPanic; RPanic; RNone; RNone; RUnit; RNone; RPanic] /\
+  match mfinal (env_map (C17_sc_adv 6)) false C17_ops1 (w_of m3) with
+  | Some wf => owned (env_map (C17_sc_adv 6)) (self wf) = [1; 2; 13; 14]%N /\
+               mouts (env_map (C17_sc_adv 6)) false C17_ops1 (w_of m3) = [12]%N /\
+               dropped (log wf) = [7; 8; 10; 11; 3; 4; 5; 6]%N
+  | None => False
+  end.
+Proof. vm_compute. repeat split; reflexivity. Qed.
+
+(* seed mod 4 = 3: the answer changes between two calls on the same operands
+   (truthful on even call numbers, negated on odd ones) *)
+Example C17_example_history_alternating :
+  mrun (env_map (C17_sc_adv 7)) false C17_ops1 (w_of m3) =
+    [RVal (v_ 4 8); RVal (v_ 2 7); RVal (v_ 11 2); RVal (v_ 6 9); RUnit; RNone; RVal (v_ 14 4)] /\
+  match mfinal (env_map (C17_sc_adv 7)) false C17_ops1 (w_of m3) with
+  | Some wf => owned (env_map (C17_sc_adv 7)) (self wf) = [13; 15]%N /\
+               mouts (env_map (C17_sc_adv 7)) false C17_ops1 (w_of m3) = [4; 2; 11; 6; 14]%N /\
+               dropped (log wf) = [7; 10; 1; 5; 12; 3; 8]%N
+  | None => False
+  end.
+Proof. vm_compute. repeat split; reflexivity. Qed.
+
+(* the four seeds really select the four kinds *)
+Example C17_example_modes :
+  (4 mod 4 = 0 /\ 5 mod 4 = 1 /\ 6 mod 4 = 2 /\ 7 mod 4 = 3)%N /\
+  (forall n t, adv_answer 5 n t = true) /\ (forall n t, adv_answer 6 n t = false) /\
+  (forall t, adv_answer 7 0 t = t /\ adv_answer 7 1 t = negb t).
+Proof. repeat split; reflexivity. Qed.
